@@ -143,3 +143,26 @@ def threaded_stage(rec, props: tuple, cases: list[dict], extra=None, nthreads: i
             rec.violation(kind, f"parsed concurrently with {nthreads - 1} other threads: {msg}", rcase, f"concurrent:{p}:{kind}")
             return
     rec.cls("concurrent_stage")
+
+
+# ------------------------------------------------------------------------------------------ whole generated charts
+def whole_charts(rec, props: tuple, seed: int, pid: str, shard_name: str, count: int, extra=None, on_ok=None, **kw) -> None:
+    """Every property is stated for charts, not for one section in isolation: besides its focused workload each check judges whole
+    generated charts (all sections populated: metadata of every field, busy tempo maps, all global-event kinds, several tracks with
+    chords / open notes / flags / held notes / phrases / track events, realistic and hostile profiles alternating)."""
+    from vmon import gen, harness
+
+    for i in range(count):
+        rng = harness.rng_for(seed, pid, shard_name, i)
+        args = dict(n_tracks=rng.choice([0, 1, 2, 4]), n_groups=rng.choice([3, 30, 150]), n_globals=rng.choice([0, 6, 60]),
+                    n_tempos=rng.choice([1, 2, 6, 25]), pad=i % 4 == 1)
+        args.update(kw)
+        case = gen.gen_chart(rng, "hostile" if i % 2 else "realistic", **args)
+        out, ob, d = judge(rec, props, case, extra=extra)
+        if d is not None and not select(d, props, extra):
+            rec.cls("whole_generated_chart")
+            rec.key(["whole", case["text"]])
+            if on_ok is not None:
+                on_ok(case, out)
+        if rec.full:
+            break
